@@ -49,28 +49,30 @@ def _filter_pred(fn: ast.FunctionDef):
 
 
 def r2(run: Run, rt):
+    """the numeric filter and the blank predicate, decided by abstract evaluation (engine F) of the helpers on a one-element list
+    of every kind of cell value -- however the selection is written (comprehension, loop, filter())"""
+    from ..finite import evaluator_for
     for cp in rt.copies():
         fn = cp.members.get('_only_numeric_list')
         if fn is None:
             run.bad('C11.R2', f'_only_numeric_list[{cp.label}]', 'missing', 'numeric filter missing', loc=cp.path)
             continue
-        var, pred = _filter_pred(fn)
-        flags = [a.arg for a in fn.args.args if a.arg not in ('self', 'cls')][1:]
         for kname, av in KINDS.items():
-            ev = Evaluator(cp.members)
-            env = {var: av}
-            for f in flags:
-                env[f] = const_av(False)
+            ev = evaluator_for(cp)
             try:
-                got = truth(ev.ev(pred, env))
+                res = ev.call_method('_only_numeric_list', [AV('list', items=(av,))])
             except Unknown as u:
                 raise AnalysisError('C11.R2', f'numeric filter on {kname}: {u}')
             except AbsRaise as r:
                 run.bad('C11.R2', f'_only_numeric_list[{cp.label}]/{kname}', f'raises:{r.exc}',
                         f'the numeric filter raises {r.exc} on a {kname} cell', loc=cp.loc(fn))
                 continue
+            if res.items is None:
+                raise AnalysisError('C11.R2', f'numeric filter on {kname}: the result is not a list of known contents')
+            got = len(res.items) == 1
             want = kname in NUMERIC_ADMITTED
-            run.check(got == want, 'C11.R2', f'_only_numeric_list[{cp.label}]/{kname}', 'filter-admits' if got else 'filter-rejects',
+            run.check(got == want and len(res.items) <= 1, 'C11.R2', f'_only_numeric_list[{cp.label}]/{kname}',
+                      'filter-admits' if got else 'filter-rejects',
                       f'the numeric filter {"admits" if got else "rejects"} a {kname} cell; aggregates must fold exactly the cells '
                       f'whose type is int or float (text, booleans and blanks inside areas are ignored)',
                       fact='admitted' if got else 'rejected', loc=cp.loc(fn))
@@ -79,27 +81,23 @@ def r2(run: Run, rt):
         if fn is None:
             run.bad('C11.R2', f'_count_blank[{cp.label}]', 'missing', 'helper missing', loc=cp.path)
             continue
-        comps = [n for n in ast.walk(fn) if isinstance(n, (ast.ListComp, ast.GeneratorExp))]
-        if len(comps) != 1 or len(comps[0].generators[0].ifs) != 1:
-            raise AnalysisError('C11.R2', '_count_blank is not a single filtering comprehension')
-        var = comps[0].generators[0].target.id
-        pred = comps[0].generators[0].ifs[0]
         for kname, av in KINDS.items():
-            ev = Evaluator(cp.members)
+            if kname == 'error text':
+                continue                         # an error value makes the function return the error (C13.R4 / C11.R11)
+            ev = evaluator_for(cp)
             try:
-                got = truth(ev.ev(pred, {var: av}))
+                res = ev.call_method('_count_blank', [AV('list', items=(av, AV('int', sign='pos', val=3)))])
             except Unknown as u:
                 raise AnalysisError('C11.R2', f'blank predicate on {kname}: {u}')
+            except AbsRaise as r:
+                run.bad('C11.R2', f'_count_blank[{cp.label}]/{kname}', f'raises:{r.exc}', f'COUNTBLANK raises {r.exc} on a {kname} cell',
+                        loc=cp.loc(fn))
+                continue
+            got = res.val == 1
             want = kname in BLANK_ADMITTED
-            run.check(got == want, 'C11.R2', f'_count_blank[{cp.label}]/{kname}', 'blank-predicate',
-                      f'COUNTBLANK {"counts" if got else "does not count"} a {kname} cell; it must count exactly blank and empty-text '
+            run.check(got == want and res.val in (0, 1), 'C11.R2', f'_count_blank[{cp.label}]/{kname}', 'blank-predicate',
+                      f'COUNTBLANK of a {kname} cell and the number 3 is {res.val!r}; it must count exactly blank and empty-text '
                       f'cells', fact='counted' if got else 'not counted', loc=cp.loc(fn))
-        # the count is the length of that selection
-        rets = sorted([n for n in ast.walk(fn) if isinstance(n, ast.Return)], key=lambda n: (n.lineno, n.col_offset))
-        last = rets[-1].value if rets else None
-        ok = isinstance(last, ast.Call) and isinstance(last.func, ast.Name) and last.func.id == 'len'
-        run.check(ok, 'C11.R2', f'_count_blank[{cp.label}]/fold', 'not-len', 'COUNTBLANK does not return the length of the selection',
-                  fact='len(selection)', loc=cp.loc(fn))
 
 
 def _is_filtered(expr, param, filtered_vars):
